@@ -249,6 +249,9 @@ func (fg *FnGen) applyContract(con *Contract, name string, names []string, args 
 	if con.Trusted != "" {
 		fg.note("assumed contract: " + con.PkgPath + "::" + con.Key + " (" + con.Trusted + ")")
 	}
+	for _, cbName := range con.Callbacks {
+		fg.applyCallback(vars[cbName], name, pos)
+	}
 	if isGo {
 		// new goroutine: its effects are not sequenced; havoc what it may modify
 		if !con.HasMod || con.ModAll {
@@ -388,7 +391,7 @@ func (fg *FnGen) frameCheckWholeArr(comp string, arr Term, pos token.Pos) {
 	if fg.modAll || fg.c == nil {
 		return
 	}
-	alts := []Term{Ge(arr, fg.allocEntry)}
+	alts := []Term{Ge(arr, fg.allocEntry), Eq(arr, IntLit(0))} // a nil slice has no elements
 	for _, w := range fg.W {
 		if w.comp != comp {
 			continue
@@ -451,6 +454,26 @@ func (fg *FnGen) uncontractedCall(cc *ssa.CallCommon, fn *ssa.Function, name str
 	case fn != nil:
 		// external static callee: may write through pointer/slice arguments only (assumption)
 		fg.note("external call without contract: " + name + " (assumed to write only through its pointer/slice arguments)")
+		callback := false
+		for _, a := range args {
+			if _, isFn := types.Unalias(a.T).Underlying().(*types.Signature); isFn {
+				callback = true
+			}
+		}
+		if callback {
+			// a function value is passed: the callee may call back into arbitrary repository code
+			fg.note("external call with a function argument: " + name + " (may call back: havocs the whole heap and may perform any event)")
+			if !fg.modAll {
+				fg.oblige("frame", "call."+name, TFalse, pos, "callback passed to "+name+" may modify anything")
+			}
+			fg.havocAll("callback " + name)
+			fg.havocAllCounters(pos)
+			for _, comp := range append([]string{}, fg.compOrder...) {
+				if strings.HasPrefix(comp, "H:local!") {
+					fg.havocComp(comp)
+				}
+			}
+		}
 		for _, a := range args {
 			fg.havocReachable(a, pos)
 		}
@@ -674,8 +697,8 @@ func (g *Gen) writeSetOf(fn *ssa.Function) *writeSet {
 					ws.all = true
 					continue
 				}
-				if isLocalAlloc(x.Addr) {
-					continue
+				if isLocalAlloc(x.Addr) || rootIsAlloc(x.Addr) {
+					continue // memory allocated by the callee itself is not caller-visible state
 				}
 				for _, leaf := range layout(T) {
 					comp := kind + prefix + leaf.Path
@@ -787,6 +810,8 @@ func isLocalAlloc(v ssa.Value) bool {
 	switch x := v.(type) {
 	case *ssa.Alloc:
 		return !x.Heap
+	case *ssa.Slice:
+		return isLocalAlloc(x.X)
 	case *ssa.FieldAddr:
 		return isLocalAlloc(x.X)
 	case *ssa.IndexAddr:
@@ -865,21 +890,24 @@ func (g *Gen) isStableComp(comp string) bool {
 func (g *Gen) checkStableDecls() []*Obligation {
 	var out []*Obligation
 	for _, d := range g.cs.Decls {
-		if d.Kind == "stableelems" && len(d.Args) >= 1 {
+		if (d.Kind == "stableelems" || d.Kind == "frozenelems") && len(d.Args) >= 1 {
 			if o := g.checkStableElems(d); o != nil {
 				out = append(out, o)
 			}
 			continue
 		}
-		if d.Kind != "stable" || len(d.Args) < 1 {
+		if (d.Kind != "stable" && d.Kind != "frozen") || len(d.Args) < 1 {
 			continue
 		}
 		sp := g.ssaPkgs[d.PkgPath]
 		if sp == nil {
 			continue
 		}
-		field := d.Args[0] // T.f
+		field := d.Args[0] // T.f   (frozen: pkg.T.f of another package; this package must not store to it)
 		prefix := "H:" + sp.Pkg.Name() + "." + field
+		if d.Kind == "frozen" {
+			prefix = "H:" + field
+		}
 		writers := map[string]bool{}
 		for _, w := range d.Args[1:] {
 			w = strings.Trim(w, ",")
@@ -1174,4 +1202,102 @@ func isAppendChainOfFresh(v ssa.Value) bool {
 		return false
 	}
 	return rec(v)
+}
+
+// applyCallback: the callee may invoke the function value any number of times. If it is a closure
+// created in this function whose body only stores to its captured variables (directly, or to the
+// elements of a captured slice) and calls nothing with effects, exactly those locations are havoced;
+// otherwise everything is.
+func (fg *FnGen) applyCallback(cb *Val, name string, pos token.Pos) {
+	var mc *ssa.MakeClosure
+	if cb != nil && len(cb.L) == 1 {
+		for v, m := range fg.closures {
+			if vv := fg.vals[v]; vv != nil && len(vv.L) == 1 && vv.L[0].S == cb.L[0].S {
+				mc = m
+			}
+		}
+	}
+	if mc == nil || !closureIsSimple(mc.Fn.(*ssa.Function), fg.g) {
+		fg.note("callback passed to " + name + " is not a simple local closure: havocs the whole heap and may perform any event")
+		if !fg.modAll {
+			fg.oblige("frame", "callback."+name, TFalse, pos, "callback may modify anything")
+		}
+		fg.havocAll("callback " + name)
+		fg.havocAllCounters(pos)
+		return
+	}
+	fg.note("callback passed to " + name + ": simple local closure, only its captured variables are havoced")
+	for _, b := range mc.Bindings {
+		bv := fg.val(b)
+		// the captured cell
+		cellT := derefType(bv.T)
+		if cellT == nil {
+			continue
+		}
+		// elements of a captured slice (as it is now and as the closure may leave it)
+		cell := fg.load(fg.derefQuiet(bv))
+		if st, ok := types.Unalias(cellT).Underlying().(*types.Slice); ok && len(cell.L) == 4 {
+			for _, leaf := range layout(st.Elem()) {
+				comp := "E:" + typeKey(st.Elem()) + leaf.Path
+				fg.get(fg.cur, comp, ArrSort(ArrSort(leaf.Sort)))
+				fg.havocEntry(modEntry{comp: comp, elem: true, arr: cell.L[0]}, pos)
+			}
+		}
+		fg.havocReachable(bv, pos)
+		if pfx, ok := fg.privateRefs[bv.L[0].S]; ok {
+			for _, comp := range append([]string{}, fg.compOrder...) {
+				if strings.HasPrefix(comp, "H:"+pfx) {
+					fg.havocComp(comp)
+				}
+			}
+		}
+	}
+}
+
+// closureIsSimple: stores only to captured variables or elements of captured slices; no calls except
+// builtins len/cap and contracted pure functions.
+func closureIsSimple(fn *ssa.Function, g *Gen) bool {
+	isFree := func(v ssa.Value) bool { _, ok := v.(*ssa.FreeVar); return ok }
+	for _, b := range fn.Blocks {
+		for _, ins := range b.Instrs {
+			switch x := ins.(type) {
+			case *ssa.Store:
+				switch a := x.Addr.(type) {
+				case *ssa.FreeVar:
+				case *ssa.IndexAddr:
+					u, ok := a.X.(*ssa.UnOp)
+					if !ok || !isFree(u.X) {
+						return false
+					}
+				default:
+					_ = a
+					return false
+				}
+			case *ssa.Call:
+				if bi, ok := x.Call.Value.(*ssa.Builtin); ok {
+					switch bi.Name() {
+					case "len", "cap", "min", "max":
+						continue
+					}
+					return false
+				}
+				callee := x.Call.StaticCallee()
+				if callee == nil {
+					if x.Call.IsInvoke() {
+						if con := g.contractForMethod(x.Call.Value.Type(), x.Call.Method.Name()); con != nil && con.Pure {
+							continue
+						}
+					}
+					return false
+				}
+				if con := g.contractFor(callee); con != nil && con.Pure {
+					continue
+				}
+				return false
+			case *ssa.Go, *ssa.Defer, *ssa.Send, *ssa.MapUpdate, *ssa.MakeClosure, *ssa.Select:
+				return false
+			}
+		}
+	}
+	return true
 }
